@@ -138,6 +138,13 @@ theorem step_zone (cfg : Cfg) (s : Txn) (op : Op) (h : op.isCommit = false) : (s
   cases op with
   | commit => simp [Op.isCommit] at h
   | rollback => simp only [step]; exact endTxn_false_zone s
+  | commitRaise =>
+    simp only [step, endTxnRaise]
+    split
+    · rfl
+    · split
+      · rfl
+      · split <;> rfl
   | add args veto =>
     simp only [step]
     by_cases h1 : s.ended = true
@@ -221,7 +228,7 @@ theorem step_ended (cfg : Cfg) (s : Txn) (op : Op) (h : s.ended = true) (hgn : c
     rcases hgn with hgn | hgn
     · simp [step, h, hgn]
     · simp [Op.isGetNode] at hgn
-  | _ => simp [step, endTxn, h]
+  | _ => simp [step, endTxn, endTxnRaise, h]
 
 /-- whatever the guard of `get_node`, an ended transaction never changes again -/
 theorem step_ended_state (cfg : Cfg) (s : Txn) (op : Op) (h : s.ended = true) : (step cfg s op).1 = s := by
@@ -231,7 +238,7 @@ theorem step_ended_state (cfg : Cfg) (s : Txn) (op : Op) (h : s.ended = true) : 
     split
     · rfl
     · split <;> rfl
-  | _ => simp [step, endTxn, h]
+  | _ => simp [step, endTxn, endTxnRaise, h]
 
 theorem run_ended (cfg : Cfg) (ops : List Op) (s : Txn) (h : s.ended = true) : (run cfg s ops).1 = s := by
   induction ops with
@@ -247,6 +254,14 @@ theorem rollback_ends (s : Txn) : (endTxn s false).1.ended = true ∧ (endTxn s 
   · split
     · exact ⟨rfl, rfl⟩
     · simp
+
+theorem commitRaise_ends (s : Txn) : (endTxnRaise s).1.ended = true ∧ (endTxnRaise s).1.zone = s.zone := by
+  unfold endTxnRaise
+  split
+  · rename_i h; exact ⟨h, rfl⟩
+  · split
+    · exact ⟨rfl, rfl⟩
+    · split <;> exact ⟨rfl, rfl⟩
 
 theorem exit_ended (s : Txn) (exc : Bool) (h : s.ended = true) : exitTxn s exc = s := by
   unfold exitTxn; simp [h]
@@ -270,6 +285,11 @@ theorem step_readOnly_frame (cfg : Cfg) (s : Txn) (op : Op) (h : s.readOnly = tr
   cases op with
   | commit => simp only [step]; exact hend true
   | rollback => simp only [step]; exact hend false
+  | commitRaise =>
+    simp only [step, endTxnRaise]
+    by_cases h1 : s.ended = true
+    · rw [if_pos h1]; exact ⟨rfl, h⟩
+    rw [if_neg h1, if_pos h]; exact ⟨rfl, h⟩
   | add args veto =>
     simp only [step]
     by_cases h1 : s.ended = true
